@@ -449,7 +449,7 @@ class Converter:
                 if s.local or s.name[:1].isdigit():
                     raise Unsupported("extern-local-label")
                 self.kinds["label"] += 1
-                return "Label %s;\n  Extern [%s]" % (coq_str(s.name.lower()), coq_str(s.name.lower()))
+                return ["Label %s" % coq_str(s.name.lower()), "Extern [%s]" % coq_str(s.name.lower())]
             if s.local:
                 self.kinds["local-label"] += 1
                 return "LocalLabel %s" % coq_str(s.name.lower())
@@ -466,7 +466,7 @@ class Converter:
             self.kinds["assign"] += 1
             t = "Assign %s %s" % (coq_str(s.target.name.lower()), self.expr(s.value))
             if s.is_extern:
-                t += ";\n  Extern [%s]" % coq_str(s.target.name.lower())
+                return [t, "Extern [%s]" % coq_str(s.target.name.lower())]
             return t
         if isinstance(s, T.WordList):
             self.kinds["word-list"] += 1
@@ -497,13 +497,19 @@ class Converter:
                                      "; ".join(self.operand(st, o) for st, o in zip(stubs, ops)))
         raise Unsupported("statement:" + type(s).__name__)
 
-    def block(self, blk, in_repeat):
-        out = []
+    def block_items(self, blk, in_repeat):
+        """per statement of the block: (list of Coq terms -- one, or two for `a::` / `a ==` --, the parser's token)"""
+        items = []
         for s in blk.insns:
             try:
-                out.append(self.stmt(s, in_repeat))
+                t = self.stmt(s, in_repeat)
+                items.append((t if isinstance(t, list) else [t], s))
             except Unsupported as u:
                 self.unsupported[u.kind] += 1
+        return items
+
+    def block(self, blk, in_repeat):
+        out = [t for ts, _ in self.block_items(blk, in_repeat) for t in ts]
         return "[" + ";\n  ".join(out) + "]"
 
 
@@ -538,14 +544,16 @@ def convert(filename, text, fs=None):
     res = Conversion()
     res.parse_diags = c.shared.parse_diags
     res.term = None
+    res.items = None
     res.unsupported = c.unsupported
     res.kinds = c.kinds
     tree = parse_with(c, filename, text)
     if tree is None:
         return res
-    term = c.block(tree.body, False)
+    items = c.block_items(tree.body, False)
     if not c.unsupported:
-        res.term = term
+        res.items = items          # [(terms, token)]: the top-level statements with the parser's spans
+        res.term = "[" + ";\n  ".join(t for ts, _ in items for t in ts) + "]"
     return res
 
 
